@@ -345,6 +345,10 @@ nni_msgq_close(nni_msgq *mq)
 {
 	nni_aio *aio;
 
+	if (mq == NULL) {
+		// (like nni_msgq_fini: the owner could not be fully set up)
+		return;
+	}
 	nni_mtx_lock(&mq->mq_lock);
 	mq->mq_closed = true;
 	// Free the messages orphaned in the queue.
